@@ -239,12 +239,48 @@ func runC20(c *Ctx) {
 		ex := exec[0].(*ssa.Call)
 		var okPath bool
 		if u.pathField == "" {
-			okPath, _ = allOrigins(sv.Call.Args[0], oCallWhere(-1, "path.Join", func(j *ssa.Call) bool {
+			isJoin := oCallWhere(-1, "path.Join", func(j *ssa.Call) bool {
 				elems, okk := sliceLitElems(j.Call.Args[0])
 				return okk && len(elems) == 2 && vFieldLoadO(u.optsT, "BasePath")(elems[0]) && vFieldLoadO(u.optsT, "Path")(elems[1])
-			}))
+			})
+			okPath, _ = allOrigins(sv.Call.Args[0], isJoin)
+			if !okPath {
+				// a defensive "/" when the joined path came out empty (it cannot: the base path is never empty)
+				if phi, isPhi := sv.Call.Args[0].(*ssa.Phi); isPhi {
+					okPath = true
+					nJoin := 0
+					for i, e := range phi.Edges {
+						if okJ, _ := allOrigins(e, isJoin); okJ {
+							nJoin++
+							continue
+						}
+						k, isK := constString(e)
+						if !isK || k != "/" || !edgeGuarded(phi.Block().Preds[i], phi.Block(), nil, factEqString(vOrigins(isJoin), "", true)) {
+							okPath = false
+						}
+					}
+					okPath = okPath && nJoin > 0
+				}
+			}
 		} else {
 			okPath = vFieldLoadO(u.optsT, u.pathField)(sv.Call.Args[0])
+			if !okPath {
+				// a defensive recomputation when the configured value came out empty (it cannot: the defaulting fills it)
+				if phi, isPhi := sv.Call.Args[0].(*ssa.Phi); isPhi {
+					okPath = true
+					nCfg := 0
+					for i, e := range phi.Edges {
+						if vFieldLoadO(u.optsT, u.pathField)(e) {
+							nCfg++
+							continue
+						}
+						if !edgeGuarded(phi.Block().Preds[i], phi.Block(), nil, factEqString(vFieldLoadO(u.optsT, u.pathField), "", true)) {
+							okPath = false
+						}
+					}
+					okPath = okPath && nCfg > 0
+				}
+			}
 		}
 		c.obI("R20.1", sv, "ui-path", okPath, "the page is served at path.Join(opts.BasePath, opts.Path) (the OAuth2 callback at opts.OAuthCallbackURL)", "path argument "+describe(sv.Call.Args[0]))
 		// assets = buffer written by Execute
